@@ -249,7 +249,8 @@ def fval(fid, k):
 
 def run_op(w, op):
     try:
-        r = w.run(op)
+        with torch.no_grad():   # the whole history runs without autograd (in-place edits stand for optimiser steps)
+            r = w.run(op)
         r["st"] = "ok"
     except Exception as e:  # noqa
         r = {"st": "err", "err": errkind(e), "msg": f"{type(e).__name__}: {str(e)[:160]}"}
@@ -304,12 +305,19 @@ def gen_op(rng, w, specs):
     grids = w.grids
     if not w.objs or rng.random() < 0.05:
         return gen_new(rng, grids, specs)
-    if rng.random() < 0.06:
+    if rng.random() < 0.09:
         base = rng.randrange(len(w.objs))
         same = [i for i, t in enumerate(w.objs) if w.kinds[i] != "seq" and t.grid().same_domain_as(w.objs[base].grid())]
         if same and w.kinds[base] != "seq":
             return {"op": "seq", "members": [base] + [rng.choice(same) for _ in range(rng.randint(0, 2))]}
     o = rng.randrange(len(w.objs))
+    seqs = [i for i, k in enumerate(w.kinds) if k == "seq"]
+    if seqs and rng.random() < 0.3:
+        o = rng.choice(seqs)
+        if rng.random() < 0.5:     # one of its members
+            ms = [i for i, t in enumerate(w.objs) if any(t is m for m in w.objs[o].transforms())]
+            if ms:
+                o = rng.choice(ms)
     t = w.objs[o]
     kind = w.kinds[o]
     cur = grid_id(grids, t.grid())
@@ -391,23 +399,31 @@ def rnd_params(rng, kind, grid, amp=0.08):
 
 
 def held_params(t):
-    """the parameters the transform holds now, by its documented semantics (no buffers)"""
-    p = t.params
-    if p is None:
+    """the parameters the transform holds now, by its documented semantics (no buffers); None if undefined"""
+    try:
+        p = t.params
+        if p is None:
+            return None
+        if isinstance(p, S.SpatialTransform):
+            return p.data()
+        if callable(p) and not isinstance(p, torch.Tensor):
+            a, kw = t.condition()
+            return p(*a, **kw)
+        return p
+    except Exception:  # noqa
         return None
-    if isinstance(p, S.SpatialTransform):
-        return p.data()
-    if callable(p) and not isinstance(p, torch.Tensor):
-        a, kw = t.condition()
-        return p(*a, **kw)
-    return p
+
+
+def consistent(t, kind):
+    """held parameters exist and have the shape the held grid asks for"""
+    d = held_params(t)
+    if d is None:
+        return False
+    return tuple(d.shape[1:]) == tuple(data_shape(kind, t.grid()))
 
 
 def fresh_twin(t, kind):
     """a newly constructed transform with the state t holds now"""
-    if kind == "seq":
-        members = [fresh_twin(m, mk) for m, mk in t._c09_members()]
-        return S.SequentialTransform(*members)
     data = held_params(t)
     tw = make(kind, t.grid(), params=data.detach().clone())
     if kind == "lin":
@@ -424,11 +440,66 @@ def maxdiff(a, b):
     return float((a - b).abs().max())
 
 
+def cname(t, kd):
+    return "LinearTransform" if kd == "lin" else type(t).__name__
+
+
+def pkname(t):
+    p = t.params
+    if isinstance(p, Parameter):
+        return "Parameter"
+    if isinstance(p, S.SpatialTransform):
+        return "link"
+    if isinstance(p, torch.Tensor):
+        return "tensor"
+    if p is None:
+        return "none"
+    return "callable"
+
+
+def condition_api_checks(grids, report):
+    """SpatialTransform.condition(): get with no arguments, new conditioned transform otherwise"""
+    t = make("lin", grids[0], params=lambda *a, **k: torch.zeros((1, 2)))
+    try:
+        r = t.condition(a=1)
+        if not isinstance(r, S.SpatialTransform):
+            report("C09:SpatialTransform.condition:kwargs-only-returns-current",
+                   "condition(a=1) returns the current (args, kwargs) instead of a transform conditioned on a=1", [{"op": "condition", "kwargs": {"a": 1}}])
+        r = t.condition(1, a=2)
+        if not isinstance(r, S.SpatialTransform) or r.condition() != ((1,), {"a": 2}):
+            got = r.condition() if isinstance(r, S.SpatialTransform) else r
+            report("C09:SpatialTransform.condition:kwargs-dropped",
+                   f"condition(1, a=2) is conditioned on {got!r}: keyword arguments are dropped", [{"op": "condition", "args": [1], "kwargs": {"a": 2}}])
+        t2 = make("lin", grids[0], params=lambda *a, **k: torch.zeros((1, 2)))
+        t2.condition_(3, b=4)
+        if t2.condition() != ((3,), {"b": 4}):
+            report("C09:SpatialTransform.condition_:not-stored", f"condition_(3, b=4) stored {t2.condition()!r}", [{"op": "condition_"}])
+    except Exception as e:  # noqa
+        report("C09:SpatialTransform.condition:raises", f"{type(e).__name__}: {str(e)[:100]}", [{"op": "condition"}])
+
+
+def admissible_grids(kd, t, grids, specs, dom):
+    cur = [g for g in range(len(grids)) if grids[g] == t.grid() and grids[g].align_corners() == t.grid().align_corners()]
+    if not cur:
+        return []
+    grp = [g for g in dom if cur[0] in g]
+    cands = list(grp[0]) if grp else []
+    if kd in ("ffd", "svffd"):
+        ok = []
+        for g in cands:
+            if not specs[g]["align"] or not grids[g].same_domain_as(t.grid()):
+                continue
+            if all(nb in (na, 2 * na - 1) for na, nb in zip(specs[cur[0]]["size"], specs[g]["size"])):
+                ok.append(g)
+        cands = ok
+    return cands
+
+
 def oracle(p):
     rng = random.Random(p["seed"])
-    grids_spec = p["grids"]
-    grids = [mkgrid(s) for s in grids_spec]
-    dom = p["domain_groups"]          # lists of grid ids sharing sample-point hull
+    specs = p["grids"]
+    grids = [mkgrid(s) for s in specs]
+    dom = p["domain_groups"]          # lists of grid ids sharing the sample-point hull
     n = p["n"]
     maxlen = p["maxlen"]
     fails = []
@@ -437,23 +508,19 @@ def oracle(p):
     def report(key, what, hist, extra=None):
         fails.append({"key": key, "what": what, "history": hist, "extra": extra or {}})
 
+    condition_api_checks(grids, report)
     for it in range(n):
         kind = rng.choice(["disp", "svf", "ffd", "svffd", "lin"])
         pk = rng.choice(["param", "tensor", "ptensor", "fun", "buf"])
         group = rng.choice(dom)
         if kind in ("ffd", "svffd"):
-            group = [g for g in group if grids_spec[g]["align"]]
+            group = [g for g in group if specs[g]["align"]]
         gi = rng.choice(group)
-        state = {"c": None}
         hist = [{"op": "new", "kind": kind, "pk": pk, "grid": gi}]
         store = {}
 
-        def fun(c=None, kind=kind, store=store):
-            key = ("f", c)
-            return store[key]
-
-        def set_fun_value(t, c):
-            store[("f", c)] = rnd_params(rng, kind, t.grid())
+        def fun(c=None, store=store):
+            return store[("f", c)]
 
         try:
             if pk == "param":
@@ -468,8 +535,8 @@ def oracle(p):
             elif pk == "ptensor":
                 t = make(kind, grids[gi], params=Parameter(rnd_params(rng, kind, grids[gi])))
             else:
+                store[("f", None)] = rnd_params(rng, kind, grids[gi])
                 t = make(kind, grids[gi], params=fun)
-                set_fun_value(t, None)
         except Exception as e:  # noqa
             report(f"C09:{KINDS[kind].__name__}.__init__:{pk}:raises", f"constructor raises {type(e).__name__}: {str(e)[:100]}", hist)
             continue
@@ -480,24 +547,25 @@ def oracle(p):
         for step in range(L):
             ti = rng.randrange(len(objs))
             t, kd = objs[ti]
-            callable_p = callable(t.params) and not isinstance(t.params, (torch.Tensor, S.SpatialTransform))
-            linked = isinstance(t.params, S.SpatialTransform)
+            pkn = pkname(t)
             ops = ["call", "call", "update", "clear", "copy"]
-            if not callable_p and not linked:
+            if pkn in ("Parameter", "tensor"):
                 ops += ["data_", "edit", "edit", "reset"]
-            if callable_p:
-                ops += ["cond_", "cond_"]
-            if kd != "lin":
-                ops += ["grid_"]
+            if pkn == "callable":
+                ops += ["cond_", "cond_", "reset"]
+            if kd != "lin" and pkn != "link":
+                ops += ["grid_", "grid_"]
             if kd in ("svf", "svffd", "lin"):
                 ops += ["inverse", "inverse"]
-            if linked:
+            if pkn == "link":
                 ops += ["unlink_"]
             op = rng.choice(ops)
             rec = {"op": op, "o": ti}
             hist.append(rec)
             counts["ops"] += 1
             replaced = False
+            stop = False
+            was_consistent = consistent(t, kd)
             try:
                 if op == "data_":
                     t.data_(rnd_params(rng, kd, t.grid()))
@@ -511,49 +579,53 @@ def oracle(p):
                 elif op == "cond_":
                     c = rng.randint(1, 5)
                     rec["c"] = c
-                    if ("f", c) not in store or store[("f", c)].shape != (1,) + tuple(data_shape(kd, t.grid()) or ()):
-                        set_fun_value(t, c)
+                    store[("f", c)] = rnd_params(rng, kd, t.grid())
                     t.condition_(c)
                     replaced = True
                 elif op == "grid_":
-                    cur = [g for g in range(len(grids)) if grids[g] == t.grid() and grids[g].align_corners() == t.grid().align_corners()]
-                    grp = [g for g in dom if cur and cur[0] in g]
-                    cands = list(grp[0]) if grp else [gi]
-                    if kd in ("ffd", "svffd"):
-                        cands = [g for g in cands if grids_spec[g]["align"]]
+                    cands = admissible_grids(kd, t, grids, specs, dom)
+                    if not cands:
+                        hist.pop()
+                        continue
                     gn = rng.choice(cands)
                     rec["grid"] = gn
                     before = None
-                    if isinstance(t.params, torch.Tensor):
+                    if pkn in ("Parameter", "tensor") and consistent(t, kd):
                         t.update()
                         before = t.flow().axes("world")
-                    if callable_p:
+                    if pkn == "callable":
                         a, _ = t.condition()
                         cc = a[0] if a else None
                         # the callable must return matching size after the grid change
-                        shape = data_shape(kd, grids[gn])
-                        if shape is not None:
-                            store[("f", cc)] = rnd_params(rng, kd, grids[gn])
+                        store[("f", cc)] = rnd_params(rng, kd, grids[gn])
                     t.grid_(grids[gn])
                     replaced = True
-                    if before is not None:
-                        # world-space deformation must be preserved at the sample points common to both grids
+                    ga = t.grid()
+                    if not (ga == grids[gn] and ga.align_corners() == grids[gn].align_corners()):
+                        d = float("nan")
+                        if before is not None:
+                            t.update()
+                            d = maxdiff(t.flow().axes("world").sample(before.grid()).tensor(), before.tensor())
+                        base = "DenseVectorFieldTransform" if kd in ("disp", "svf") else ("BSplineTransform" if kd != "lin" else "SpatialTransform")
+                        report(f"C09:{base}.grid_:align-corners-only:grid-not-replaced",
+                               "grid_() with a grid that differs from the current one only in align_corners re-expresses the parameters for "
+                               f"the new axes but keeps the previous grid (align_corners {ga.align_corners()} instead of {grids[gn].align_corners()}); "
+                               f"world-space displacement changed by {d:.3g}", list(hist))
+                        stop = True
+                    elif before is not None:
                         counts["regrid_checks"] += 1
                         t.update()
                         after = t.flow().axes("world")
-                        a_on_b = after.sample(before.grid()).tensor() if after.grid() != before.grid() or \
-                            after.grid().align_corners() != before.grid().align_corners() else after.tensor()
-                        b_t = before.tensor()
-                        # compare on interior points, affine-exactness is not assumed: tolerance scales with field curvature
-                        d = maxdiff(a_on_b, b_t)
-                        tol = 0.02 * float(b_t.abs().max()) + 1e-4
-                        ga = t.grid()
-                        if not (ga == grids[gn] and ga.align_corners() == grids[gn].align_corners()):
-                            report(f"C09:{type(t).__name__}.grid_:grid-not-replaced",
-                                   "grid_() re-expressed the parameters but kept the previous grid "
-                                   f"(align_corners {ga.align_corners()} instead of {grids[gn].align_corners()}); world displacement changed by {d:.3g}",
-                                   list(hist))
-                        elif d > tol:
+                        same = after.grid() == before.grid() and after.grid().align_corners() == before.grid().align_corners()
+                        # compare at the sample points of the coarser of the two lattices (both share the corner points)
+                        if same:
+                            d = maxdiff(after.tensor(), before.tensor())
+                        elif after.grid().numel() >= before.grid().numel():
+                            d = maxdiff(after.sample(before.grid()).tensor(), before.tensor())
+                        else:
+                            d = maxdiff(before.sample(after.grid()).tensor(), after.tensor())
+                        tol = 0.05 * float(before.tensor().abs().max()) + 1e-4
+                        if d > tol:
                             report(f"C09:{type(t).__name__}.grid_:world-deformation-changed",
                                    f"world-space displacement changed by {d:.3g} (tolerance {tol:.3g}) after grid_()", list(hist))
                 elif op == "update":
@@ -569,22 +641,22 @@ def oracle(p):
                     objs.append((t.inverse(link=link, update_buffers=upd), kd))
                 elif op == "unlink_":
                     t.unlink_()
-                elif op == "call":
-                    pass
             except Exception as e:  # noqa
                 counts["raised"] += 1
-                pkn = "Parameter" if isinstance(t.params, Parameter) else ("callable" if callable_p else ("link" if linked else "tensor"))
                 if op == "inverse" and rec.get("link") and isinstance(e, TypeError):
-                    report(f"C09:{'InvertibleParametricTransform' if kd == 'lin' else type(t).__name__}.inverse:link:{pkn}:TypeError",
-                           f"inverse(link=True) raises {type(e).__name__}: {str(e)[:100]}", list(hist))
-                else:
-                    report(f"C09:{type(t).__name__}.{op}:{pkn}:raises", f"{op} raises {type(e).__name__}: {str(e)[:100]}", list(hist))
+                    report(f"C09:ParametricTransform.link_:{pkn}:TypeError",
+                           f"inverse(link=True) raises {type(e).__name__}: {str(e)[:120]}", list(hist))
+                elif was_consistent:
+                    # an operation on a transform whose held state is well-formed must not fail
+                    report(f"C09:{cname(t, kd)}.{op}:{pkn}:raises", f"{op} raises {type(e).__name__}: {str(e)[:100]}", list(hist))
                 continue
-            # checks: every object must evaluate the state it holds now
+            if stop:
+                break
+            # checks: every object whose held state is consistent must evaluate exactly that state when called
             for oi, (u, uk) in enumerate(objs):
+                if not consistent(u, uk):
+                    continue
                 try:
-                    if held_params(u) is None:
-                        continue
                     tw = fresh_twin(u, uk)
                     with torch.no_grad():
                         want = tw(x)
@@ -592,33 +664,176 @@ def oracle(p):
                     counts["call_checks"] += 1
                     d = maxdiff(got, want)
                     if d > 1e-5:
-                        report(f"C09:{type(u).__name__}.__call__:stale-after-{op}",
+                        report(f"C09:{cname(u, uk)}.__call__:{pkname(u)}:stale-after-{op}",
                                f"call differs from a freshly built transform with the same parameters/grid/condition by {d:.3g}", list(hist),
                                {"object": oi})
                 except Exception as e:  # noqa
-                    report(f"C09:{type(u).__name__}.__call__:raises-after-{op}", f"{type(e).__name__}: {str(e)[:100]}", list(hist), {"object": oi})
-            if replaced:
-                try:
-                    tw = fresh_twin(t, kd)
-                    with torch.no_grad():
-                        want = tw.disp() if kd != "lin" else tw.tensor()
-                        got = t.disp() if kd != "lin" else t.tensor()
-                        want_t = tw.tensor()
-                        got_t = t.tensor()
-                    counts["disp_checks"] += 1
-                    d = max(maxdiff(got, want), maxdiff(got_t, want_t))
-                    if d > 1e-5:
-                        pkn = "callable" if callable_p else "tensor"
-                        report(f"C09:{type(t).__name__}.{op}:{pkn}:disp-stale",
-                               f"disp()/tensor() right after {op} differs from the new state by {d:.3g}", list(hist))
-                except Exception as e:  # noqa
-                    report(f"C09:{type(t).__name__}.{op}:disp-raises", f"{type(e).__name__}: {str(e)[:100]}", list(hist))
+                    report(f"C09:{cname(u, uk)}.__call__:{pkname(u)}:raises-after-{op}", f"{type(e).__name__}: {str(e)[:100]}", list(hist), {"object": oi})
+        # replacing operations are checked separately on fresh objects so that no call intervenes
+    replace_checks(rng, grids, specs, dom, n, report, counts)
+    composite_checks(rng, grids, specs, max(20, n // 3), report, counts)
     # de-duplicate by key keeping the shortest history
     best = {}
     for f in fails:
         if f["key"] not in best or len(f["history"]) < len(best[f["key"]]["history"]):
             best[f["key"]] = f
     return {"fails": list(best.values()), "counts": counts}
+
+
+def replace_checks(rng, grids, specs, dom, n, report, counts):
+    """disp()/tensor() IMMEDIATELY after data_/reset/condition_/grid_ must reflect the new state"""
+    for it in range(n):
+        kind = rng.choice(["disp", "svf", "ffd", "svffd", "lin"])
+        pk = rng.choice(["param", "tensor", "ptensor", "fun", "buf"])
+        group = rng.choice(dom)
+        if kind in ("ffd", "svffd"):
+            group = [g for g in group if specs[g]["align"]]
+        gi = rng.choice(group)
+        store = {}
+
+        def fun(c=None, store=store):
+            return store[("f", c)]
+        if pk == "param":
+            t = make(kind, grids[gi], params=True)
+            with torch.no_grad():
+                t.params.copy_(rnd_params(rng, kind, grids[gi]))
+        elif pk == "buf":
+            t = make(kind, grids[gi], params=False)
+            t.params.copy_(rnd_params(rng, kind, grids[gi]))
+        elif pk == "tensor":
+            t = make(kind, grids[gi], params=rnd_params(rng, kind, grids[gi]))
+        elif pk == "ptensor":
+            t = make(kind, grids[gi], params=Parameter(rnd_params(rng, kind, grids[gi])))
+        else:
+            store[("f", None)] = rnd_params(rng, kind, grids[gi])
+            t = make(kind, grids[gi], params=fun)
+        hist = [{"op": "new", "kind": kind, "pk": pk, "grid": gi}]
+        x = torch.rand((1, 5, 2), generator=torch.Generator().manual_seed(it)) * 1.6 - 0.8
+        for step in range(rng.randint(1, 4)):
+            pre = rng.choice(["call", "update", "edit", "none", "disp"])
+            try:
+                if pre == "call":
+                    t(x)
+                elif pre == "update":
+                    t.update()
+                elif pre == "disp":
+                    t.disp()
+                elif pre == "edit" and pk != "fun":
+                    with torch.no_grad():
+                        t.data().add_(rnd_params(rng, kind, t.grid(), amp=0.05))
+                hist.append({"op": pre})
+                ops = ["data_", "reset"] if pk != "fun" else ["cond_", "cond_", "reset"]
+                if kind != "lin":
+                    ops.append("grid_")
+                op = rng.choice(ops)
+                rec = {"op": op}
+                hist.append(rec)
+                if op == "data_":
+                    t.data_(rnd_params(rng, kind, t.grid()))
+                elif op == "reset":
+                    t.reset_parameters()
+                elif op == "cond_":
+                    c = rng.randint(1, 5)
+                    rec["c"] = c
+                    store[("f", c)] = rnd_params(rng, kind, t.grid())
+                    t.condition_(c)
+                else:
+                    cands = [g for g in admissible_grids(kind, t, grids, specs, dom)
+                             if not (grids[g] == t.grid())]       # align-only changes are reported by the history oracle
+                    if not cands:
+                        hist.pop()
+                        continue
+                    gn = rng.choice(cands)
+                    rec["grid"] = gn
+                    if pk == "fun":
+                        a, _ = t.condition()
+                        store[("f", a[0] if a else None)] = rnd_params(rng, kind, grids[gn])
+                    t.grid_(grids[gn])
+                if not consistent(t, kind):
+                    break
+                tw = fresh_twin(t, kind)
+                with torch.no_grad():
+                    want = [tw.tensor(), tw.disp()]
+                    got = [t.tensor(), t.disp()]
+                counts["disp_checks"] += 1
+                d = max(maxdiff(a, b) for a, b in zip(got, want))
+                if d > 1e-5:
+                    base = cname(t, kind)
+                    if op == "grid_" and kind in ("ffd", "svffd"):
+                        base = "BSplineTransform"
+                    opn = {"cond_": "condition_", "reset": "reset_parameters"}.get(op, op)
+                    report(f"C09:{base}.{opn}:{'callable' if pk == 'fun' else 'tensor'}:tensor-stale",
+                           f"tensor()/disp() right after {opn} differ from the new state by {d:.3g} (a call or update() in between repairs it)",
+                           list(hist))
+                    break
+            except Exception as e:  # noqa
+                report(f"C09:{cname(t, kind)}.{hist[-1]['op']}:replace-raises", f"{type(e).__name__}: {str(e)[:100]}", list(hist))
+                break
+
+
+def composite_checks(rng, grids, specs, n, report, counts):
+    """a SequentialTransform called after its members changed must evaluate the members' current state"""
+    counts["composite_checks"] = 0
+    for it in range(n):
+        gi = rng.choice([0, 1, 3, 4])
+        g = grids[gi]
+        kinds = [rng.choice(["disp", "svf", "ffd", "svffd", "lin"]) for _ in range(rng.randint(1, 3))]
+        store = {}
+        members = []
+        for j, k in enumerate(kinds):
+            if rng.random() < 0.3:
+                store[(j, None)] = rnd_params(rng, k, g)
+                members.append(make(k, g, params=(lambda c=None, j=j: store[(j, c)])))
+            else:
+                members.append(make(k, g, params=rnd_params(rng, k, g)))
+        hist = [{"op": "seq", "kinds": kinds, "grid": gi}]
+        try:
+            seq = S.SequentialTransform(*members)
+            x = torch.rand((1, 6, 2), generator=torch.Generator().manual_seed(it)) * 1.2 - 0.6
+            objs = [(seq, members, kinds)]
+            for step in range(rng.randint(1, 5)):
+                cs, ms, ks = objs[rng.randrange(len(objs))]
+                j = rng.randrange(len(ms))
+                m, k = ms[j], ks[j]
+                op = rng.choice(["edit", "data_", "cond_", "call", "disp", "inverse", "copy"])
+                hist.append({"op": op, "member": j})
+                with torch.no_grad():
+                    if op == "call":
+                        cs(x)
+                    elif op == "disp":
+                        cs.disp()
+                    elif op == "copy":
+                        objs.append((copy.copy(cs), ms, ks))
+                    elif op == "inverse":
+                        if all(kk in ("svf", "svffd", "lin") for kk in ks) and not any(isinstance(mm.params, Parameter) for mm in ms):
+                            inv = cs.inverse(link=rng.random() < 0.5, update_buffers=rng.random() < 0.5)
+                            objs.append((inv, list(inv.transforms()), list(reversed(ks))))
+                    elif pkname(m) == "callable" or pkname(m) == "link":
+                        if op == "cond_" and pkname(m) == "callable":
+                            jj = [q for q in range(len(members)) if members[q] is m]
+                            if jj:
+                                c = rng.randint(1, 4)
+                                for q in range(len(members)):
+                                    if pkname(members[q]) == "callable":
+                                        store[(q, c)] = rnd_params(rng, kinds[q], g)
+                                cs.condition_(c)
+                    elif op == "edit":
+                        m.data().add_(rnd_params(rng, k, g, amp=0.05))
+                    elif op == "data_":
+                        m.data_(rnd_params(rng, k, g))
+                    for cs2, ms2, ks2 in objs:
+                        if not all(consistent(mm, kk) for mm, kk in zip(ms2, ks2)):
+                            continue
+                        twin = S.SequentialTransform(*[fresh_twin(mm, kk) for mm, kk in zip(ms2, ks2)])
+                        want = twin(x)
+                        got = cs2(x)
+                        counts["composite_checks"] += 1
+                        d = maxdiff(got, want)
+                        if d > 1e-5:
+                            report(f"C09:SequentialTransform.__call__:stale-after-{op}",
+                                   f"composite call differs from a freshly built composite of the members' current state by {d:.3g}", list(hist))
+        except Exception as e:  # noqa
+            report(f"C09:SequentialTransform:{hist[-1]['op']}:raises", f"{type(e).__name__}: {str(e)[:120]}", list(hist))
 
 
 def main():
